@@ -188,7 +188,8 @@ Additive == (cfg.kind = "program" /\ Len(prog) > 0) =>
                 /\ acc = (IF Total = 0 THEN Zero ELSE AS(One, One, <<Total, 1>>)[6].c)      \* distance 0 = identity
                 /\ \A k \in 1..Len(stages) : (stages[k].t = "diag" /\ stages[k].dom = "x") => stages[k].c = Zero   \* Q1 = Q3 = 1
                 /\ \A k \in 1..Len(stages) : stages[k].t = "const" => stages[k].c = Zero
-CollapseSound == cfg.kind = "program" =>
+\* (a fact about the size only: evaluated once per size, in the program's initial state)
+CollapseSound == (cfg.kind = "program" /\ Len(prog) = 0) =>
                 /\ IsIdentity(Table("ft", cfg.N), Table("ift", cfg.N), cfg.N)       \* forward after inverse = identity
                 /\ IsIdentity(Table("ift", cfg.N), Table("ft", cfg.N), cfg.N)
 \* C11: back-propagation with 1/m: chirps cancel pairwise, scalars multiply to 1, only a constant phase remains
